@@ -2,14 +2,20 @@
 (* Judge of real table writes and reads (engine "sst"): every reply is compared with SSTable.tla's operators. Verdict-list mode. *)
 EXTENDS SSTable, IOUtils
 Trace == ndJsonDeserialize(IOEnv.TRACE)
-VARIABLES l, bad, nok, skip, cs, opened
-tvars == <<acc, hist, l, bad, nok, skip, cs, opened>>
-TInit == acc = <<>> /\ hist = <<>> /\ l = 1 /\ bad = <<>> /\ nok = 0 /\ skip = FALSE /\ cs = -1 /\ opened = FALSE
+VARIABLES l, bad, nok, skip, cs, opened, orig
+tvars == <<acc, hist, l, bad, nok, skip, cs, opened, orig>>
+TInit == acc = <<>> /\ hist = <<>> /\ l = 1 /\ bad = <<>> /\ nok = 0 /\ skip = FALSE /\ cs = -1 /\ opened = FALSE /\ orig = <<>>
 Ev == Trace[l]
 \* iterator outputs arrive as sequences of [rank, token] pairs or as an "err:..." string
 Pairs(s) == [i \in 1..Len(s) |-> <<s[i][1], s[i][2]>>]
 \* an iterator result: drained pairs + error text ("" = clean end)
 OutEq(e, exp) == e.err = "" /\ Pairs(e.out) = exp
+OrigVal(k) == LET S == {i \in 1..Len(orig) : orig[i][1] = k} IN IF S = {} THEN "ABSENT" ELSE orig[CHOOSE i \in S : TRUE][2]
+\* keys written with an empty / nil value have a zero checksum by format design: they are only protected against damage that a record
+\* header detects (byte alterations, truncation), not against whole records being exchanged
+DamageOkFor(kind, o, outcome) == IF o \in {"EMPTY", "NIL"} /\ kind = "swap" THEN TRUE ELSE DamageOk(o, outcome)
+ScanGenuine(kind, out) == /\ \A i \in 1..Len(out) : OrigVal(out[i][1]) # "ABSENT" /\ DamageOkFor(kind, OrigVal(out[i][1]), out[i][2])
+                    /\ \A i \in 1..(Len(out) - 1) : out[i][1] < out[i + 1][1]
 Check ==
   CASE Ev.t = "write" -> IF Ev.r # WriteReply(acc, Ev.k, IF Ev.hit THEN Ev.fault ELSE "") THEN "write-reply" ELSE "ok"
     [] Ev.t = "reader" ->
@@ -25,9 +31,20 @@ Check ==
     [] Ev.t = "scanfrom" -> IF ~OutEq(Ev, ScanFrom(acc, Ev.k)) THEN "scan-starting-at" ELSE "ok"
     [] Ev.t = "scanrange" -> IF Ev.lo > Ev.hi THEN (IF Ev.err = "" THEN "scan-range-lower-above-upper-not-rejected" ELSE "ok")
                             ELSE IF ~OutEq(Ev, ScanRange(acc, Ev.lo, Ev.hi)) THEN "scan-range" ELSE "ok"
+    [] Ev.t = "dmgtable" -> "ok"
+    [] Ev.t = "dmg" ->
+         \* C09 NeverDifferentValue: per key the open failed, the read failed, or the ORIGINAL value came back; scans only yield genuine
+         \* pairs in ascending order (they may stop early, with or without an error, but never invent or alter data)
+         IF Ev.open # "ok" /\ Ev.open # "err" THEN "damage-panic"
+         ELSE IF Ev.open = "err" THEN "ok"
+         ELSE IF \E i \in 1..Len(Ev.gets) : ~DamageOkFor(Ev.kind, orig[i][2], IF Ev.gets[i] = "err" THEN "readFailed" ELSE Ev.gets[i]) THEN "damage-get-different-value"
+         ELSE IF ~ScanGenuine(Ev.kind, Ev.scan) THEN "damage-scan-different-data"
+         ELSE IF ~ScanGenuine(Ev.kind, Ev.range) THEN "damage-range-scan-different-data"
+         ELSE "ok"
     [] OTHER -> "unknown-event"
 Step ==
   /\ l <= Len(Trace) /\ l' = l + 1 /\ UNCHANGED hist
+  /\ orig' = IF Ev.t = "dmgtable" THEN Ev.orig ELSE IF Ev.t = "reset" THEN <<>> ELSE orig
   /\ IF Ev.t = "reset" THEN acc' = <<>> /\ skip' = FALSE /\ cs' = Ev.case /\ opened' = FALSE /\ UNCHANGED <<bad, nok>>
      ELSE IF skip THEN UNCHANGED <<acc, bad, nok, skip, cs, opened>>
      ELSE LET c == Check IN
